@@ -39,6 +39,59 @@ def run_hdeps(root):
     return json.loads(p.stdout.splitlines()[0])
 
 
+def library_identifiers():
+    """Gallina identifiers the translator itself emits (Skip, Continue, NewMap, MapGet, …): a mention of one of them is a mention of
+    GooseLang's library even when the package happens to define a function of that name."""
+    out = set()
+    for f in ("goose.go", "types.go", os.path.join("internal", "coq", "coq.go")):
+        try:
+            src = open(os.path.join(C.REPO, f)).read()
+        except OSError:
+            continue
+        out |= set(re.findall(r'GallinaIdent\("([A-Za-z_][\w.]*)"\)', src)) | set(re.findall(r'newCoqCall\("([A-Za-z_][\w.]*)"', src))
+    return out
+
+
+def recording_gaps(h, text=None):
+    """For one package as the hook reports it: (definition, mentioned same-package definition) pairs where the mention is not among
+    the dependencies recorded for the unit that emitted the definition."""
+    emitted = [e for e in (h.get("emitted") or []) if first_name(e)]
+    if text is None:
+        text = "\n\n".join(e if e.rstrip().endswith(".") else e for e in emitted) + "\n"
+    reps = k4.gl_session(text, ["names"])
+    if reps[0].startswith("parse-error"):
+        return None
+    order = reps[1][6:].split(",") if reps[1] != "names -" else []
+    uses = k4.gl_session(text, ["usesord " + n for n in order])[1:]
+    defined = set(order)
+    unit_of = {}
+    for ui, info in enumerate(h["infos"]):
+        for nm in info["Names"] or []:
+            unit_of[nm] = ui
+    for ui, info in enumerate(h["infos"]):
+        for e in info["Emitted"] or []:
+            fn = first_name(e)
+            if fn:
+                unit_of.setdefault(fn, ui)
+    gaps = []
+    lib = library_identifiers()
+    pos = {}
+    for i, n in enumerate(order):
+        pos.setdefault(n, i)
+    for n, rep in zip(order, uses):
+        ui = unit_of.get(n)
+        if ui is None or not rep.startswith("usesord ") or rep == "usesord -":
+            continue
+        info = h["infos"][ui]
+        have = set(info["Deps"] or []) | set(info["Names"] or []) | {first_name(e) for e in info["Emitted"] or []}
+        for u in rep[8:].split(","):
+            # (a name defined BELOW the definition is not a mention of the package's definition in Coq's reading order: the file is
+            #  accepted by Coq, so the name is a library identifier there — unittest has its own `Skip` after loops that use the library's)
+            if u in defined and u != n and u not in have and pos[u] < pos[n] and u not in lib:
+                gaps.append((n, u))
+    return gaps
+
+
 def model_order(infos):
     """Model.Deps.emitOrder on the recorded names/deps (the Lean driver, protocol `deps`)"""
     def enc(xs):
@@ -89,6 +142,27 @@ def analyse(files, decls, scratch, build):
     if h.get("err"):
         raise C.Infra("hdeps: " + h["err"][:500])
     res["hook"] = h
+    # ---- completeness of the recording, whatever the order: every same-package definition that the emitted text of a unit mentions is
+    #      among the dependencies the translator recorded for that unit (or is defined by the unit itself).  A reference kind that forgets
+    #      addDep shows here even when the declarations happen to be written in an order that hides it.
+    unit_of = {}
+    for ui, info in enumerate(h["infos"]):
+        for nm in info["Names"] or []:
+            unit_of[nm] = ui
+    for ui, info in enumerate(h["infos"]):
+        for e in info["Emitted"] or []:
+            fn = first_name(e)
+            if fn:
+                unit_of.setdefault(fn, ui)
+    for i, n in enumerate(order):
+        ui = unit_of.get(n)
+        if ui is None or not reps[i].startswith("usesord ") or reps[i] == "usesord -":
+            continue
+        info = h["infos"][ui]
+        have = set(info["Deps"] or []) | set(info["Names"] or []) | {first_name(e) for e in info["Emitted"] or []}
+        for u in reps[i][8:].split(","):
+            if u in pos and u != n and u not in have and "__to__" not in u:         # (S__to__I: the listed finding interface-conversion-order)
+                res["problems"].append(("dependency-not-recorded", {"definition": n, "mentions": u, "recorded_dependencies": sorted(set(info["Deps"] or []))[:20]}))
     if build.driver_ok and getattr(build, "deps_proto", True):
         # ---- the units of ordering: Model.Deps.declUnits on the top-level declarations of the SOURCE (single declarations, and const
         #      groups with their specs) gives the units the translator recorded, file by file (sorted), in order, with the same names
@@ -157,6 +231,8 @@ def check(ctx, build=None):
                     stats["problem_" + kind] += 1
                     viol({"names": "C04: the emitted definitions are not exactly one per declaration under the documented names",
                           "use-before-definition": "C04: a definition mentions a same-package definition that is not above it",
+                          "dependency-not-recorded": "C04: a definition mentions a same-package definition that the translator did not record as a dependency "
+                                                     "(another declaration order emits it before that definition)",
                           "unparsable": "C04: the emitted file cannot be read back"}[kind],
                          {"proto": "c04", "seed": seed, "layout": li, "files": fs}, "one definition per declaration, each after everything it mentions",
                          {"problem": detail, "emitted_order": res["order"]})
@@ -200,6 +276,20 @@ def check(ctx, build=None):
                     ctx.known("%s — %s (findings/C04/%s.go: defined twice: %s)" % (key, known[key]["what"], key, ",".join(dups)))
                 else:
                     viol("C04: a witness program that is not a listed known finding defines a name twice", {"proto": "c04-witness", "file": path}, "distinct names", dups)
+            # … or mentions a definition that is not above it
+            wuses = k4.gl_session(text, ["usesord " + n for n in order])[1:] if order else []
+            wpos = {}
+            for i, n in enumerate(order):
+                wpos.setdefault(n, i)
+            late = [(n, u) for i, (n, rep) in enumerate(zip(order, wuses)) if rep.startswith("usesord ") and rep != "usesord -"
+                    for u in rep[8:].split(",") if u in wpos and wpos[u] > i]
+            if late:
+                want = known.get(key, {}).get("match", {}).get("mention_contains")
+                if key in known and want and all(want in u for _, u in late):
+                    ctx.known("%s — %s (findings/C04/%s.go: %s mentions %s, which is defined below it)" % (key, known[key]["what"], key, late[0][0], late[0][1]))
+                else:
+                    viol("C04: a witness program that is not a listed known finding mentions a definition that is not above it",
+                         {"proto": "c04-witness", "file": path}, "only definitions above", late[:4])
         # ---- an obligation or the correspondence broke and nothing concrete was found yet: search further
         if build.broken and not found:
             for seed in range(ctx.seed * 7000 + 1000, ctx.seed * 7000 + 1000 + 120):
@@ -293,6 +383,33 @@ def check(ctx, build=None):
                 if ghost:
                     viol("C04: a definition mentions a method name that no definition of the file has",
                          {"proto": "c04-probe", "probe": pid, "source": "package p\n\n" + psrc, "emitted": k4.emitted_def(text, n)}, "every Type__method name mentioned is defined in the file", {"definition": n, "mentions": ghost, "order": order})
+        # ---- completeness of the dependency recording on the repository's own example packages (every construct the examples use):
+        #      each definition's same-package mentions are among the dependencies recorded for the unit that emitted it
+        if build.hooks_ok:
+            for ex in sorted(os.listdir(os.path.join(C.REPO, "internal", "examples"))):
+                exdir = os.path.join(C.REPO, "internal", "examples", ex)
+                if not glob.glob(os.path.join(exdir, "*.go")):
+                    continue
+                pr = subprocess.run([HDEPS, C.REPO, "./internal/examples/" + ex], env=C.GOENV, stdout=subprocess.PIPE, stderr=subprocess.PIPE, text=True, timeout=300)
+                if pr.returncode != 0 or not pr.stdout.strip():
+                    continue
+                hh = json.loads(pr.stdout.splitlines()[0])
+                if hh.get("err") or not hh.get("infos"):
+                    continue
+                gold = glob.glob(os.path.join(exdir, "*.gold.v"))
+                gaps = recording_gaps(hh, open(gold[0]).read() if gold else None)
+                stats["example_packages_checked"] += 1
+                if gaps is None:
+                    continue
+                stats["example_definitions_checked"] += len(hh.get("emitted") or [])
+                # (the listed finding interface-conversion-order: conversions S__to__I are not recorded; its witness is replayed below)
+                if "interface-conversion-order" in {e["key"] for e in C.load_known("C04") if e.get("status") == "known"}:
+                    stats["example_conversion_mentions_not_recorded"] += sum(1 for _, u in gaps if "__to__" in u)
+                    gaps = [g for g in gaps if "__to__" not in g[1]]
+                if gaps:
+                    viol("C04: a definition of one of the repository's example packages mentions a same-package definition that the translator did not "
+                         "record as a dependency (another declaration order emits it before that definition)",
+                         {"proto": "c04-examples", "package": "internal/examples/" + ex}, "every mention recorded", {"definition_mentions": gaps[:6]})
         # ---- re-translating over an older output file: still exactly one definition per declaration
         found = gomod.retranslate_stream(ctx, scratch, "C04: the output file holds more or other definitions than the package", found)
     finally:
